@@ -50,10 +50,10 @@ func NewState() *State {
 
 // LineOpts selects what goes into the comparison.
 type LineOpts struct {
-	Extra          bool // include ShareState.Extra and the committee's share public keys
-	NonOwnLiquid   bool // include the liquidation flag of shares that are not the node's own
-	SkipLastBlock  bool
-	SkipOperators  bool
+	Extra         bool // include ShareState.Extra and the committee's share public keys
+	NonOwnLiquid  bool // include the liquidation flag of shares that are not the node's own
+	SkipLastBlock bool
+	SkipOperators bool
 }
 
 // Lines renders the state as sorted lines (diff-able).
